@@ -1,5 +1,7 @@
 import AdaVerif.Model.UrlRec
 import AdaVerif.Lemmas.AggEditors
+import AdaVerif.Lemmas.UrlSetters
+import AdaVerif.Lemmas.ParseInv
 /-
 C04 — `ada::url` and `ada::url_aggregator` are observationally identical.
 
@@ -86,5 +88,135 @@ example : getComponents exR = { pe := 6, ue := 9, hs := 11, he := 18, port := so
 def exR2 : Rec := { scheme := ofStr "foo", special := false, username := [], password := [], host := none, port := none,
                     path := ofStr "//p", query := none, hash := none }
 example : getHref exR2 = ofStr "foo:/.//p" := by decide +kernel
+
+/-! ### the setters of both types agree
+
+Both `ada::url` (Model/UrlSetters.lean) and `ada::url_aggregator` (Model/AggSetters.lean) have their component setters
+modelled and proved equal to the Standard's API setters (Props/C03).  Hence, for every record of the Standard that
+satisfies the invariants of C19, every value and every limit: the setter of `ada::url`, viewed through the buffer
+layout, is the setter of `ada::url_aggregator` - same buffer, same offsets, same return value. -/
+
+open AdaVerif.Spec AdaVerif.Lemmas.UR AdaVerif.Lemmas.AggL
+
+/-- what is assumed of the record: the invariants of C19, and path segments without '/' -/
+structure Good (u : Url) : Prop where
+  inv : RecInv u = true
+  noSlash : ∀ s ∈ u.path, (0x2F : UInt8) ∉ s
+
+theorem port_bound (u : Url) (h : RecInv u = true) : ∀ p, u.port = some p → p < 65536 := by
+  intro p hp
+  simp only [RecInv, Bool.and_eq_true] at h
+  have := h.1.2
+  rw [hp] at this
+  simp only [portOkB, Bool.and_eq_true, decide_eq_true_eq] at this
+  omega
+
+/-- the `ada::url` object of a good record lays out as the aggregator's buffer, and its size function agrees -/
+theorem view_of_good (u : Url) (g : Good u) :
+    layout (toL (recOf u)) = layout (ofUrl u) ∧ getHrefSize (recOf u) = (layout (ofUrl u)).buf.length := by
+  have hl := (credOk_of_recInv u g.inv).hostless
+  have e := toL_recOf u hl (port_bound u g.inv) g.noSlash
+  have ok : RecOk (recOf u) := by
+    intro hh
+    have : u.host = none := by cases h : u.host <;> simp_all [recOf]
+    exact hl this
+  refine ⟨by rw [e], ?_⟩
+  rw [hrefSize_eq, href_eq_layout _ ok, e]
+
+/-- the result of an `ada::url` setter seen as a buffer -/
+def view (p : Rec × Bool) : Agg × Bool := (layout (toL p.1), p.2)
+
+theorem view_guard (u u' : Url) (g : Good u) (g' : Good u') (L : Nat) :
+    view (if getHrefSize (recOf u') ≤ L then (recOf u', true) else (recOf u, false)) =
+      (if (layout (ofUrl u')).buf.length ≤ L then (layout (ofUrl u'), true) else (layout (ofUrl u), false)) := by
+  rw [(view_of_good u' g').2]
+  split
+  · simp [view, (view_of_good u' g').1]
+  · simp [view, (view_of_good u g).1]
+
+theorem path_username (u : Url) (v : Bytes) : (setUsername u v).path = u.path := by unfold setUsername; split <;> rfl
+theorem path_password (u : Url) (v : Bytes) : (setPassword u v).path = u.path := by unfold setPassword; split <;> rfl
+theorem path_port (u : Url) (v : Bytes) : (setPort u v).path = u.path := by
+  simp only [setPort, portOverride]; repeat' split
+  all_goals rfl
+theorem path_search (u : Url) (v : Bytes) : (setSearch u v).path = u.path := by
+  unfold setSearch Url.stripTrailingSpaces; repeat' split
+  all_goals rfl
+theorem path_hash (u : Url) (v : Bytes) : (setHash u v).path = u.path := by
+  unfold setHash Url.stripTrailingSpaces; repeat' split
+  all_goals rfl
+
+/-- **set_username / set_password: both types agree** -/
+theorem username_agrees (L ty : Nat) (u : Url) (v : Bytes) (g : Good u) (hna : TailNoAt (ofUrl u))
+    (hty : (ty == 6) = (u.scheme == bFile)) :
+    view (setUsernameR L ty (recOf u) v) = setUsernameM L (u.scheme == bFile) (layout (ofUrl u)) v := by
+  have ok := credOk_of_recInv u g.inv
+  rw [setUsernameR_eq L ty u v ok hty, setUsername_end_to_end L u v ok hna]
+  split
+  · simp [view, (view_of_good u g).1]
+  · exact view_guard u _ g ⟨AdaVerif.Lemmas.recinv_username u v g.inv, by rw [path_username]; exact g.noSlash⟩ L
+
+theorem password_agrees (L ty : Nat) (u : Url) (v : Bytes) (g : Good u) (hna : TailNoAt (ofUrl u))
+    (hty : (ty == 6) = (u.scheme == bFile)) :
+    view (setPasswordR L ty (recOf u) v) = setPasswordM L (u.scheme == bFile) (layout (ofUrl u)) v := by
+  have ok := credOk_of_recInv u g.inv
+  rw [setPasswordR_eq L ty u v ok hty, setPassword_end_to_end L u v ok hna]
+  split
+  · simp [view, (view_of_good u g).1]
+  · exact view_guard u _ g ⟨AdaVerif.Lemmas.recinv_password u v g.inv, by rw [path_password]; exact g.noSlash⟩ L
+
+/-- **set_port: both types agree** (`url::parse_port` with `std::from_chars` on one side, `parse_port` writing the digits
+    into the buffer on the other) -/
+theorem port_agrees (L ty : Nat) (u : Url) (v : Bytes) (g : Good u) (hty : (ty == 6) = (u.scheme == bFile)) :
+    view (setPortR L ty ((defaultPort u.scheme).getD 0) (recOf u) v) =
+      setPortM L (u.scheme == bFile) (defaultPort u.scheme) (layout (ofUrl u)) v := by
+  have ok := credOk_of_recInv u g.inv
+  have g' : Good (setPort u v) := ⟨AdaVerif.Lemmas.recinv_port u v g.inv, by rw [path_port]; exact g.noSlash⟩
+  rw [setPortR_eq L ty u v ok hty, setPort_end_to_end L u v ok]
+  cases hc : u.cannotHaveUsernamePasswordPort
+  · simp only [Bool.false_eq_true, ↓reduceIte]
+    by_cases hv : v.isEmpty = true
+    · simp only [hv, ↓reduceIte]
+      simp [view, (view_of_good _ g').1]
+    · simp only [hv, Bool.false_eq_true, ↓reduceIte]
+      cases ht : stripTN v with
+      | nil => simp [view, (view_of_good u g).1]
+      | cons c t =>
+        simp only
+        by_cases hd : (!isAsciiDigit c) = true
+        · simp only [hd, ↓reduceIte]
+          simp [view, (view_of_good u g).1]
+        · simp only [hd, Bool.false_eq_true, ↓reduceIte]
+          by_cases hb : parseRadix 10 ((c :: t).takeWhile isAsciiDigit) > 65535
+          · simp only [hb, ↓reduceIte]
+            simp [view, (view_of_good u g).1]
+          · simp only [hb, ↓reduceIte]
+            exact view_guard u _ g g' L
+  · simp [view, (view_of_good u g).1]
+
+/-- **set_search / set_hash: both types agree** (non-empty value) -/
+theorem search_agrees (L : Nat) (u : Url) (v : Bytes) (g : Good u) (hv : v ≠ []) :
+    layout (toL (setSearchR L (recOf u) v)) = setSearchM L u.isSpecial (layout (ofUrl u)) v := by
+  have g' : Good (setSearch u v) := ⟨AdaVerif.Lemmas.recinv_search u v g.inv, by rw [path_search]; exact g.noSlash⟩
+  have hve : v.isEmpty = false := by cases v <;> simp_all
+  rw [setSearchR_eq L u v, setSearch_end_to_end L u v hv, (view_of_good _ g').2]
+  simp only [hve, Bool.false_eq_true, ↓reduceIte]
+  split
+  · exact (view_of_good _ g').1
+  · exact (view_of_good u g).1
+
+theorem hash_agrees (L : Nat) (u : Url) (v : Bytes) (g : Good u) (hv : v ≠ []) :
+    layout (toL (setHashR L (recOf u) v)) = setHashM L (layout (ofUrl u)) v := by
+  have g' : Good (setHash u v) := ⟨AdaVerif.Lemmas.recinv_hash u v g.inv, by rw [path_hash]; exact g.noSlash⟩
+  have hve : v.isEmpty = false := by cases v <;> simp_all
+  rw [setHashR_eq L u v, setHash_end_to_end L u v hv, (view_of_good _ g').2]
+  simp only [hve, Bool.false_eq_true, ↓reduceIte]
+  split
+  · exact (view_of_good _ g').1
+  · exact (view_of_good u g).1
+
+/-- the hypotheses are satisfiable -/
+example : Good { scheme := bHttps, host := some (.domain (ofStr "h")), path := [ofStr "a", []] } :=
+  ⟨by decide +kernel, by decide +kernel⟩
 
 end AdaVerif.Props.C04
